@@ -149,6 +149,83 @@ fn copy_to(src: &std::path::Path, dir: &std::path::Path, name: &str) -> std::pat
     p
 }
 
+
+/// Profile 3: steers the embedded log so that a commit (or the put just before it) finds the write
+/// head within 0..1200 bytes of the region end while records are pending: the lex-batch record that
+/// flush_tantivy appends inside the commit (or the put) then makes the region GROW, which shifts
+/// every byte behind the log and patches the offsets recorded in the TOC.
+/// variant 0: growth inside the commit (its own lex-batch record); 1: growth in the put just before
+/// the commit; 2: two growths (64 -> 128 -> 256 KiB), both inside commits; 3: growth inside the
+/// commit of a handle that was reopened with the head near the end.
+struct Steer { variant: u64, target: i64, phase: u32, warm: u32, o_bin: i64, lex_rec: i64, wrapped: bool, growths: u32, after: u32, reopened: bool, done: bool, force_point: bool, docs_put: u32 }
+
+impl Steer {
+    fn new(variant: u64, tstep: u64) -> Self { Steer { variant, target: 100 * tstep as i64, phase: 0, warm: 0, o_bin: 330, lex_rec: 900, wrapped: false, growths: 0, after: 0, reopened: false, done: false, force_point: false, docs_put: 0 } }
+    /// (region, pending, head)
+    fn pos(&self, m: &Memvid) -> (i64, i64, i64) {
+        let (region, pending, _, _) = memvid_core::verif_hooks::wal_stats(m);
+        let cp = memvid_core::verif_hooks::header_fields(m).3;
+        let head = if pending == 0 { cp } else if self.wrapped { pending } else { cp + pending };
+        (region as i64, pending as i64, head as i64)
+    }
+    fn text(r: &mut Rng) -> Op { Op::Put { payload: Payload::Text(r.range(120, 260) as usize), embed: r.chance(1, 3), instant: false, default_opts: false, uri: None, deco: 0 } }
+    fn bin(n: i64) -> Op { Op::Put { payload: Payload::Bin(n.max(2) as usize), embed: false, instant: false, default_opts: false, uri: None, deco: 0 } }
+    fn next(&mut self, m: &Memvid, r: &mut Rng) -> Op {
+        let (region, pending, head) = self.pos(m);
+        let room = region - head;
+        // what the final approach needs: two documents, the adjusting record, then the lex batch
+        let reserve = self.target + self.lex_rec + 2600;
+        match self.phase {
+            0 => { if self.warm < 3 { self.warm += 1; Self::text(r) } else { self.phase = 1; Op::Commit } }
+            1 => {
+                if pending > 0 { return Op::Commit; }
+                let want = room - reserve - self.lex_rec;
+                let cap = (region * 3 / 10).min(40_000);
+                if want > 700 { Self::bin((want - 48 - self.o_bin).min(cap)) }
+                else if self.variant == 3 && !self.reopened { self.reopened = true; Op::Reopen }
+                else { self.phase = 2; self.docs_put = 1; Self::text(r) }
+            }
+            2 => { if self.docs_put < 2 { self.docs_put += 1; Self::text(r) } else {
+                self.phase = 3;
+                // the adjusting record: leaves `target` bytes (variant 1: 40..240 bytes, too few for the next put)
+                let leave = if self.variant == 1 { 40 + self.target % 200 } else { self.target };
+                let n = room - leave - 48 - self.o_bin;
+                if n >= 2 { Self::bin(n) } else { self.next(m, r) } } }
+            // every commit from here on is followed immediately by the four-handle comparison
+            3 => { self.phase = 4; if self.variant == 1 { Self::text(r) } else { self.force_point = true; Op::Commit } }
+            4 => { if pending > 0 { self.force_point = true; Op::Commit } else { self.phase = 5; Self::text(r) } }
+            5 => { if pending > 0 { self.after += 1; self.force_point = true; Op::Commit } else {
+                if self.variant == 2 && self.growths < 2 && self.after < 3 { self.phase = 1; self.next(m, r) } else { self.done = true; Op::Commit } } }
+            _ => { self.done = true; Op::Commit }
+        }
+    }
+    /// after the op: learn the record sizes, notice growth
+    fn observe(&mut self, op: &Op, before: (i64, i64, i64), m: &Memvid, tags: &mut BTreeSet<String>) {
+        let (region_b, pending_b, head_b) = before;
+        let (region_a, pending_a, _, _) = memvid_core::verif_hooks::wal_stats(m);
+        let (region_a, pending_a) = (region_a as i64, pending_a as i64);
+        let cp_a = memvid_core::verif_hooks::header_fields(m).3 as i64;
+        let grew = region_a > region_b;
+        match op {
+            Op::Put { payload, .. } => {
+                if pending_b == 0 && pending_a > 0 && !grew { self.wrapped = head_b + pending_a > region_b; }
+                if grew { self.wrapped = false; self.growths += 1; tags.insert("log-grew-in-put".into()); }
+                if let Payload::Bin(n) = payload { if !grew && pending_a > pending_b { let o = pending_a - pending_b - 48 - *n as i64; if (0..5000).contains(&o) { self.o_bin = o; } } }
+            }
+            Op::Commit => {
+                if pending_b > 0 {
+                    tags.insert(format!("room-at-commit:{}", ((region_b - head_b).max(0) / 100 * 100).min(5000)));
+                    if grew { self.growths += 1; tags.insert("log-grew-in-commit".into()); if self.reopened { tags.insert("log-grew-in-commit-after-reopen".into()); } if self.growths >= 2 { tags.insert("log-grew-twice".into()); } }
+                    else { let l = cp_a - head_b; if (100..5000).contains(&l) { self.lex_rec = l; } }
+                    self.wrapped = false;
+                }
+                let _ = pending_a;
+            }
+            _ => { self.wrapped = false; }
+        }
+    }
+}
+
 pub struct History { pub ops: Vec<T>, pub outs: Vec<T>, pub points: Vec<T>, pub peeks: Vec<T>, pub violation: Option<String>, pub tags: Vec<String>, pub nontrivial: bool }
 
 pub fn run_history(r: &mut Rng, nops: usize, profile: u64) -> History {
@@ -169,13 +246,22 @@ pub fn run_history(r: &mut Rng, nops: usize, profile: u64) -> History {
     let mut n_points = 0; let mut n_peeks = 0; let mut differing_sets = false; let mut sketch_nondense_seen = false;
     let mut uri_counter = 0u32;
     let mut doc_ids: BTreeSet<u64> = BTreeSet::new();
+    let mut steer: Option<Steer> = if profile >= 3000 { Some(Steer::new((profile - 3000) / 100, (profile - 3000) % 100)) } else { None };
+    let nops = if steer.is_some() { 90 } else { nops };
+    let mut last_round = false;
     for i in 0..nops {
+        if last_round { break; }
+        if steer.as_ref().is_some_and(|st| st.done) { last_round = true; }
         let n_committed = d.mem().frame_count() as u64;
         let c = r.below(100);
         // update / delete targets: Document frames (C01's side condition: no update of a DocumentChunk frame), sometimes inactive or missing ids
         let docs: Vec<u64> = (0..n_committed).filter(|j| doc_ids.contains(j)).collect();
         let pick = |r: &mut Rng| -> u64 { if r.chance(1, 8) || docs.is_empty() { n_committed + r.below(2) } else { docs[r.below(docs.len() as u64) as usize] } };
-        let op = if i + 1 == nops { Op::Commit }
+        let steer_before = steer.as_ref().map(|st| st.pos(d.mem()));
+        let op = if let Some(st) = steer.as_mut() { if st.done || i + 1 == nops { Op::Commit } else { st.next(d.mem(), r) } }
+        else if i + 1 == nops { Op::Commit }
+        // profile 1 opens with the verified witness of F-C28-1: an instant-indexed whitespace-only put (no sketch entry), a text put, commit, four handles
+        else if profile == 1 && i < 3 { match i { 0 => Op::Put { payload: Payload::Blank(5), embed: false, instant: true, default_opts: false, uri: None, deco: 0 }, 1 => Op::Put { payload: Payload::Text(r.range(60, 300) as usize), embed: r.chance(1, 2), instant: false, default_opts: false, uri: None, deco: 0 }, _ => Op::Commit } }
         else if c < 46 || (n_committed == 0 && c < 75) {
             // profile 1 starts with a frame that gets no sketch entry: every later sketch id is shifted by the reload (F-C39-1 / F-C28-1)
             let payload = if profile == 1 && frames_ref.is_empty() { let _ = r.below(12); Payload::Blank(r.range(1, 9) as usize) } else { match r.below(12) {
@@ -289,7 +375,10 @@ pub fn run_history(r: &mut Rng, nops: usize, profile: u64) -> History {
         let (_, pending, _, _) = memvid_core::verif_hooks::wal_stats(d.mem());
         let quiet = pending == 0 && fc as usize == frames_ref.len();
         let is_boundary = matches!(op, Op::Commit | Op::Reopen | Op::Crash);
-        if quiet && (i + 1 == nops || (is_boundary && r.chance(2, 3)) || r.chance(1, 6)) && n_points < 4 {
+        let mut forced = false;
+        if let (Some(st), Some(b)) = (steer.as_mut(), steer_before) { st.observe(&op, b, d.mem.as_ref().unwrap(), &mut tags); if quiet && st.force_point && matches!(op, Op::Commit) { forced = true; st.force_point = false; } }
+        let want_point = if steer.is_some() { forced || last_round } else { i + 1 == nops || (profile == 1 && i == 2) || (is_boundary && r.chance(2, 3)) || r.chance(1, 6) };
+        if quiet && want_point && n_points < (if steer.is_some() { 5 } else { 4 }) {
             // ---------- the four handles ----------
             n_points += 1;
             let lexf = r.chance(2, 3); let timef = !lexf || r.chance(1, 2); let vecf = r.chance(1, 2);
@@ -337,7 +426,7 @@ pub fn run_history(r: &mut Rng, nops: usize, profile: u64) -> History {
             if obs.len() == 4 { if obs[0].coq() != obs[1].coq() { differing_sets = true; } }
             ops_t.push(T::C("CRead", vec![T::N(0), T::B(lexf), T::B(timef), T::B(vecf)]));
             points.push(T::Tup(obs));
-        } else if !quiet && (profile == 2 || r.chance(1, 3)) && n_peeks < 6 {
+        } else if !quiet && steer.is_none() && (profile == 2 || r.chance(1, 3)) && n_peeks < 6 {
             // ---------- between a put and its commit ----------
             n_peeks += 1; tags.insert("read-while-pending".into());
             let mut ids: Vec<u64> = match d.mem().search(sreq(COMMON, 5000, true, None, None)) { Ok(resp) => resp.hits.iter().map(|h| h.frame_id).collect(), Err(_) => vec![] };
@@ -373,7 +462,8 @@ pub fn run_history(r: &mut Rng, nops: usize, profile: u64) -> History {
             pm_args[1] = T::L(bits);
         } }
     }
-    tags.insert(format!("profile{}", profile));
+    if profile >= 3000 { tags.insert(format!("target-room:{}", (profile - 3000) % 100 * 100)); }
+    tags.insert(if profile >= 3000 { format!("profile3-variant{}", (profile - 3000) / 100) } else { format!("profile{}", profile) });
     if differing_sets { tags.insert("live-and-reopened-sets-differ".into()); }
     let nontrivial = n_points > 0 && frames_ref.len() >= 3 && (profile != 1 || sketch_nondense_seen || true) && (profile != 2 || n_peeks > 0);
     History { ops: ops_t, outs, points, peeks, violation: viol.or(known), tags: tags.into_iter().collect(), nontrivial }
@@ -406,7 +496,15 @@ pub fn run(seed: u64, n: usize, w: &mut dyn std::io::Write) {
     if std::env::var("MV_C28_WITNESS").is_ok() { witness(); return; }
     if std::env::var("MV_KEEP_TMPDIR").is_err() && std::env::var("TMPDIR").is_err() && std::path::Path::new("/dev/shm").is_dir() { std::env::set_var("TMPDIR", "/dev/shm"); }
     let mut r = Rng::new(seed ^ 0xC28);
-    let plans: Vec<(u64, usize, u64)> = (0..n).map(|i| { let profile = (i % 3) as u64; let nops = r.range(6, 22) as usize; (r.next(), nops, profile) }).collect();
+    // seeds 28000..28999 are the fixed-first corpus: log-growth histories only
+    let corpus = (28000..29000).contains(&seed);
+    let sweep = r.below(13);
+    let plans: Vec<(u64, usize, u64)> = (0..n).map(|i| {
+        let g = if corpus { i } else { i / 4 };
+        // remaining room at the commit swept in steps of 100 bytes across histories (and runs); variants rotate
+        let growth = if corpus { 3000 + [0u64, 3, 2, 1][g % 4] * 100 + [3u64, 6, 0, 2][g % 4] } else { 3000 + ((g as u64 + seed) % 4) * 100 + (sweep + 5 * g as u64) % 13 };
+        let profile = if corpus { growth } else { match i % 4 { 3 => growth, k => k as u64 } };
+        let nops = r.range(6, 22) as usize; (r.next(), nops, profile) }).collect();
     if let Ok(k) = std::env::var("MV_C28_ONLY") { let k: usize = k.parse().unwrap(); let (sd, nops, profile) = plans[k]; let mut hr = Rng(sd); let h = run_history(&mut hr, nops, profile); eprintln!("viol {:?} tags {:?}", h.violation, h.tags); return; }
     let workers = 6usize;
     let mut results: Vec<Option<History>> = (0..n).map(|_| None).collect();
